@@ -368,6 +368,39 @@ pub fn c18_profile() -> Profile {
     p
 }
 
+/// Directed schedule for the delayed waited-for-reboot report: install, reboot into the target
+/// with the wall clock stepped back 72 h, a second install in that lifetime whose reboot call
+/// returns, a forward step of 76 h at a swept point, a crash at a swept point, and possibly a
+/// power cycle into the second target.  Everything not listed stays seeded.
+fn delayed_report(i: u64) -> Vec<(String, u64)> {
+    let kv = |k: &str, v: u64| (k.to_string(), v);
+    vec![
+        kv("setup/napps", 0),
+        kv("crash/enabled", 0),
+        kv("L0/http#0/app#0/outcome", 1),
+        kv("L0/policy.rebootneeded#0/answer", 1),
+        kv("L0/policy.rebootallowed#0/answer", 1),
+        kv("L0/reboot#0/behaviour", 0),
+        kv("L0/reboot.walljump", 1),
+        kv("L0/reboot.walljump.kind", 1),
+        kv("L0/reboot.version", 0),
+        kv("L1/http#0/app#0/outcome", 1),
+        kv("L1/http#0/app#0/mver", 2 * (i % 2)),
+        kv("L1/policy.rebootneeded#0/answer", (i / 2) % 2),
+        kv("L1/policy.rebootallowed#0/answer", 1),
+        kv("L1/reboot#0/behaviour", 1),
+        kv("setup/clock_jumps", 1),
+        kv("setup/clock_jumps.n", 0),
+        kv("setup/clock_jump#0/kind", 0),
+        kv("setup/clock_jump#0/v", 3),
+        kv("setup/clock_jump#0/at", 10 + ((i / 4) % 150)),
+        kv("L1/crash/enabled", 1),
+        kv("L1/crash/early", 1),
+        kv("L1/crash/at", 40 + (i / 600) % 200),
+        kv("L1/crash.boots_target", 0),
+    ]
+}
+
 fn c18_batches(tier: &str) -> Vec<Batch> {
     let mut e = c18_profile();
     e.name = "c18-crashenum".into();
@@ -391,7 +424,13 @@ fn c18_batches(tier: &str) -> Vec<Batch> {
     f.installer.plan_id_fresh_permille = 500;
     f.installer.app_result = [40, 10, 50];
     f.max_checks = 5;
+    let mut dl = c18_profile();
+    dl.name = "c18-delayed".into();
+    dl.clock_jump_permille = 1000;
+    dl.clock_classes = [3, 2, 0, 0, 0];
+    dl.max_checks = 5;
     vec![
+        Batch { name: "c18-delayed".into(), profile: dl, runs: scale(tier, 6_000, 120_000), exec: exec_c18, strata: Some(delayed_report) },
         Batch { name: "c18-fsfault".into(), profile: f, runs: scale(tier, 5_000, 120_000), exec: exec_c18, strata: None },
         Batch { name: "c18-clockstep".into(), profile: r, runs: scale(tier, 6_000, 150_000), exec: exec_c18, strata: None },
         Batch { name: "c18-main".into(), profile: c18_profile(), runs: scale(tier, 15_000, 400_000), exec: exec_c18, strata: None },
@@ -822,11 +861,11 @@ pub fn all() -> Vec<PropDef> {
         def("C07", "header-value classes x status x request kind with probe restarts after every commit and real crashes; a case is one processed response; distinct = (old value, new value, status, request kind)", vec!["'+N' and duplicate headers: any listed reading accepted", "commit is atomic; reads see uncommitted writes"], c07_batches),
         def("C13", "(a) random generator programs over {yield, yield-all(k), self-wake, await external operation, drop the yield handle, return R} under random consumer schedules {poll when woken, dawdle, spurious poll} through generate / into_yielded / into_complete / into_try_stream; (b) the state machine under lazy consumers, spurious polls and late completions: emission precedes the code after it, progress values in order before the outcome, no halt with nothing pending; distinct = (program shape, adaptor, consumer kind)", vec!["into_complete discards items inside the adaptor, so item receipt is not observable there", "a halt is judged only when neither the stream was dropped nor ended"], c13_batches),
         def("C14", "hostile inputs combined with the flow: arbitrary/garbage/bit-flipped/truncated response bytes, statuses, header values, hostile initial storage (wrong types, negatives, i64/u32 extremes for every key), malformed service URLs, wall-clock jumps (backwards, pre-epoch, sub-microsecond, far future), metrics-sink errors, crashes, with a formatting tracing subscriber installed; plus differential re-runs (same seed, storage failures live vs off) comparing requests sent and events announced; a case is one run; distinct = set of fault kinds that fired", vec!["policy and installer answers conform to their contracts", "panic attribution: the executor marks when library code is running; a panic raised inside a dependency while the mark is set counts", "differential rule is evaluated within one lifetime (what is stored legitimately differs afterwards)"], c14_batches),
-        def("C15", "in situ: every request sent by whole-flow runs (update checks, retries, event reports, pings; 1-4 apps with presets, fingerprints, extra fields; varying request parameters; on-demand requests) is decoded at the simulated server and compared with an independently written encoder applied to the model state; distinct = (request kind, app count, parameters). Builder call sequences the state machine never issues (same id added twice with different cohorts) are out of reach and not claimed.", vec!["app state is taken from the arguments the policy engine received (their correctness is C09's subject)", "version strings are rebuilt from the configured components, not from the library's Display"], c15_batches),
-        def("C16", "in situ, CUP off: documents from the independent v3 response-grammar generator (apps in any order, unknown ids, all statuses, cohort fields absent vs empty, daystart forms, urls x packages, sizes up to 2^64-1, extension attributes, optional anti-XSSI prefix), byzantine documents (required field removed / wrongly typed), and garbage, truncated, bit-flipped and deeply nested bodies reach the parser through the state machine; the announced decode is compared with the document (or with an independent reading of the bytes); distinct = (tamper kind, grammaticality, announced)", vec!["serde_json::Value as the independent reading of arbitrary bytes", "only unarguably required fields are removed by the byzantine mutations"], c16_batches),
-        def("C17", "the real client (RequestBuilder, CUP handler, parser, whole state machine) against the real mock_omaha_server::handle_request called in-process; service-URL variants, 1-3 apps, key configurations with latest/historical ids on either side, per-app response kinds, forced ETag, admin reconfigurations racing with exchanges; a case is one answered request; distinct = (configured kinds, cup, url)", vec!["requests outside the stated class (ping-only) are not sent in this profile", "the transport seam converts the absolute-form URI to origin-form, as an HTTP client does"], c17_batches),
-        def("C18", "histories of install attempts (plan ids stable or fresh, per-app results, system app at any index, manifest version present or not) with crashes at drawn interactions, reboots into the target or another version and restart delays; metrics, call order and restart behaviour compared with a model of first-seen time, consecutive failed installs and the pending-reboot record; a case is one install or one restart; distinct = outcome signature", vec!["wall-clock jumps happen only between lifetimes; durations derived from a stored (microsecond) time are compared with 1 us tolerance", "an attempt cut by a crash may count or not", "when the system app is not part of the update the target version on record is not judged"], c18_batches),
-        def("C19", "persistence path only: wall clocks at nanosecond granularity before/after the epoch, at and beyond the i64-microsecond limits, and hostile stored integers over the whole i64 range; every time the library stores (last contact, first seen, finish) must come back after a restart as the instant truncated toward the epoch at microsecond precision, be dropped exactly when it does not fit, and be presented and re-persisted unchanged when it was read from storage; exact (0 ns tolerance) duration comparisons; a case is one stored time round trip", vec!["the two-clock algebra and truncate_submicrosecond_walltime are pure functions reached by no simulated seam: not claimed (DESIGN.md 6.C19)"], c19_batches),
+        def("C15", "in situ: every request sent by whole-flow runs (update checks, retries, event reports, pings; 1-4 apps with presets, fingerprints, extra fields; varying request parameters; on-demand requests) is decoded at the simulated server and compared with an independently written encoder applied to the model state; distinct = (request kind, app count, parameters). Second harness (c15-direct): RequestBuilder driven directly with drawn operation sequences {add update check, add ping, add event, set ids, build}, builds in mid-sequence and twice, each built request compared as a JSON value with an independent encoder of the operations so far.", vec!["app state is taken from the arguments the policy engine received (their correctness is C09's subject)", "version strings are rebuilt from the configured components, not from the library's Display"], c15_batches),
+        def("C16", "in situ, CUP off: documents from the independent v3 response-grammar generator (apps in any order, unknown ids, all statuses, cohort fields absent vs empty, daystart forms, urls x packages, sizes up to 2^64-1, extension attributes, optional anti-XSSI prefix), byzantine documents (required field removed / wrongly typed), and garbage, truncated, bit-flipped and deeply nested bodies reach the parser through the state machine; the announced decode is compared with the document (or with an independent reading of the bytes); documents nested up to 10^6 levels at the positions where the grammar accepts arbitrary JSON are parsed in child processes (a stack overflow aborts the process); distinct = (tamper kind, grammaticality, announced)", vec!["serde_json::Value as the independent reading of arbitrary bytes", "only unarguably required fields are removed by the byzantine mutations"], c16_batches),
+        def("C17", "the real client (RequestBuilder, CUP handler, parser, whole state machine) against the real mock_omaha_server::handle_request called in-process; service-URL variants, 1-3 apps, key configurations with latest/historical ids on either side, per-app response kinds, forced ETag, admin reconfigurations racing with exchanges, a direct request with update check and event on one app, a second connection stalled in the middle of its body while the request must be answered; a case is one answered request; distinct = (configured kinds, cup, url)", vec!["requests outside the stated class (ping-only) are not sent in this profile", "the transport seam converts the absolute-form URI to origin-form, as an HTTP client does"], c17_batches),
+        def("C18", "histories of install attempts (plan ids stable or fresh, per-app results, system app at any index, manifest version present or not) with crashes at drawn interactions, reboots into the target or another version and restart delays; wall-clock steps across reboots and inside a lifetime, partial storage faults on the first-seen time, a directed batch for a report delayed past another install; metrics, call order and restart behaviour compared with a model of first-seen time, consecutive failed installs and the pending-reboot record (the report is retried on every trip of the main loop until the clocks allow it); a case is one install or one restart; distinct = outcome signature", vec!["durations derived from a stored (microsecond) time are compared with 1 us tolerance; which clock reading of a trip is the loop-top one is not observable: a report must match some reading of its trip", "an attempt cut by a crash may count or not", "when the system app is not part of the update the target version on record is not judged"], c18_batches),
+        def("C19", "persistence path only: wall clocks at nanosecond granularity before/after the epoch, at and beyond the i64-microsecond limits, and hostile stored integers over the whole i64 range; every time the library stores (last contact, first seen, finish) must come back after a restart as the instant truncated toward the epoch at microsecond precision, be dropped exactly when it does not fit, and be presented and re-persisted unchanged when it was read from storage; exact (0 ns tolerance) duration comparisons; steps into and out of the unrepresentable range while running; R5: the simulated timer asks is_after_or_eq_any at arm and fire under wall-clock steps; a case is one stored time round trip or one comparison", vec!["add, subtract, complete-with, destructure and truncate_submicrosecond_walltime are pure functions reached by no simulated seam: not claimed (DESIGN.md 6.C19)"], c19_batches),
         def("C10", "multi-app responses in any order with unknown ids and missing manifests x policy decisions x per-app installer result vectors x delivery outcome of each individual report (ok, transport error, HTTP error, forged); the sequence and contents of event-bearing requests of each check are compared with the path's prescription, lost-event accounting per report; a case is one completed check; distinct = (path, report sizes, installer results)", vec!["an event report with an empty app list (only unknown ids offered) may be sent or not", "lost-event count for a single-event report covering several apps: 1 or one per app"], c10_batches),
         def("C11", "up to 4 handle clones issuing up to 6 requests released inside in-flight operations (timer waits, HTTP exchanges, policy questions, plan creation, install steps, reboot wait) with batch readiness so select! order (a seeded decision) matters; handles and stream dropped at drawn moments; interval-style oracle on global sequence numbers; a case is one request; distinct = (reply, options)", vec!["a request left unanswered when the run is cut is not judged", "wake-up without timer is judged in a profile whose timers are >= 10 h away and whose operation latencies are < 1 min"], c11_batches),
         def("C12", "check timings over {wall, monotonic, both} x {minimum wait or none}; timers fire late and in any order; throttled iterations; reboot waits with pings; a case is one wait; distinct = timing shape", vec!["timers never fire early"], c12_batches),
